@@ -8,6 +8,12 @@ CLI_NOTE = ("Trusted: the device reference model (one line per (rule,key), own n
             "permanent/ignore_changes only outside %ordered blocks). Sampling, not proof. Junos-style flattening vendors not covered.")
 
 CLAIMED = {
+ "C02": dict(
+    engine="cli",
+    technique="deterministic simulation with fault injection: seeded histories of the real `annet deploy` with ACL-owning generators against simulated devices holding unmanaged lines; safety invariants evaluated after every executed command (every possible cut point)",
+    level_text="Seeded exploration: 1-3 seeded generators own random sub-forests of a synthetic rulebook (nested ACLs, ~ %global, %cant_delete=0/1, the interface default, blocks shared between generators); the real api.adeploy runs against devices that also hold unmanaged lines, with out-of-band edits and connection cuts. After every command the device executes, an independent ACL walk must cover the command path, no unmanaged line may have changed, and no removal event may hit a line covered only by cant_delete rules.",
+    design_ref="DESIGN.md 5 (C02)",
+    level_note=CLI_NOTE + " No schedule is involved: the simulator contributes the device (the statement is about device lines), the history with out-of-band edits, and evaluation at every crash point."),
  "C01": dict(
     engine="cli",
     technique="deterministic simulation with fault injection: seeded histories of the real `annet deploy` against simulated devices (fetch failures/stalls, connection cuts at any command, out-of-band edits) on a virtual clock; reference device model as oracle",
